@@ -979,8 +979,7 @@ class PipeGetReader(PipeBase):
     qual = '_Pipe._get_reader'
     variant = 'first use'
     have_reader = False
-    canaries = (('reader opened on the write path', 'hr = os.open(self._rpath, os.O_RDONLY)', 'hr = os.open(self._wpath, os.O_RDONLY)', ''),
-                ('a new connection on every call', '        if self._reader is None:', '        if True:', ''))
+    canaries = (('reader opened on the write path', 'hr = os.open(self._rpath, os.O_RDONLY)', 'hr = os.open(self._wpath, os.O_RDONLY)', ''),)
 
     def setup(self, ex):
         st = self.base(ex)
@@ -1007,7 +1006,7 @@ class PipeGetReader(PipeBase):
 class PipeGetReaderAgain(PipeGetReader):
     variant = 'later uses'
     have_reader = True
-    canaries = ()
+    canaries = (('a new connection on every call', '        if self._reader is None:', '        if True:', ''),)
 
 
 def pipe_delegate(meth, target, via, params, kw=()):
